@@ -60,8 +60,13 @@ def Left.compare (a b : Left) : Int :=
   else if a.last < b.last then -1
   else (if a.full then 1 else 0) - (if b.full then 1 else 0)
 def Left.lt (a b : Left) : Bool := a.compare b == -1
-/-- `hash_value(const Left&)`: Murmur of the two bytes (length, full) seeded with the last pointer (0 if empty) -/
+/-- `hash_value(const Left&)`: Murmur of the two bytes (length, full — `full` only when `length != 0`,
+since `==`/`Compare` ignore it for empty left states) seeded with the last pointer (0 if empty) -/
 def Left.hash (H : List Nat → Nat → Nat) (l : Left) : Nat :=
+  H [l.length % 256, if l.length != 0 && l.full then 1 else 0] (if l.length != 0 then l.last else 0)
+
+/-- `hash_value(const Left&)` as it was before repo patch 61 (hashes `full` unconditionally) -/
+def Left.hashOld (H : List Nat → Nat → Nat) (l : Left) : Nat :=
   H [l.length % 256, if l.full then 1 else 0] (if l.length != 0 then l.last else 0)
 
 structure ChartState where
